@@ -97,8 +97,12 @@ def run(rep):
             nf = rng.choice([n_ for n_ in (3, 4, 5) if n_ != nf_prev])
             rep.hist('scales', 'repeated with another nf')
         _prev[:] = [(Q02, Q2, a0, r20, nf)]
-        A = qcd.as2pf(p, nf, Q2, a0, r20)
-        A0 = qcd.as2pf(p, nf, Q02, a0, r20)
+        try:
+            A = qcd.as2pf(p, nf, Q2, a0, r20)
+            A0 = qcd.as2pf(p, nf, Q02, a0, r20)
+        except (OverflowError, ZeroDivisionError, ValueError):
+            rep.hist('skipped', 'coupling not computable (Landau pole) for these scales')
+            continue
         if not (0 < A <= 0.1) or not (0 < A0 < 1.0):
             rep.hist('skipped', 'as(Q2)/2pi>0.1' if A > 0.1 else 'as(Q02) outside (0,1)')
             continue
